@@ -22,7 +22,11 @@ RULE = ("(a) random pairs of consistently typed feature structures (atomic featu
         "shared variables: unify (single calls and chains re-using an absorbed argument) against the pointer-level "
         "model and the ground-meaning oracle. Non-trivial: structures with >=3 leaves / grammars with >=3 productions.")
 LEVEL = "proof"
-THEOREMS = ["Pfl.Earley.earley_sound",
+THEOREMS = ["Pfl.Earley.containsSpec_isSome",
+            "Pfl.Earley.earley_total",
+            "Pfl.Earley.earley_total_harness",
+            "Pfl.Earley.earley_fuel_irrelevant",
+            "Pfl.Earley.earley_sound",
             "Pfl.Earley.earley_complete",
             "Pfl.Earley.earley_exact",
             "Pfl.Earley.earley_complete_harness",
